@@ -7,7 +7,7 @@
    (c01_ok/c15_ok for StrictlyAtOnce, c06alo_ok for AtLeastOnce) + a metamorphic run
    (same history with and without its restarts: same delivered stream, same final counts). *)
 From W Require Import gen.Consts model.Base model.Engine model.EngineCfg spec.Queue
-  proofs.EngineWF proofs.EngineInv proofs.EngineW proofs.EngineMain proofs.EngineRec props.C01.
+  proofs.EngineWF proofs.EngineInv proofs.EngineW proofs.EngineMain proofs.EngineRec proofs.EngineDisk props.C01.
 From Coq Require Import Lia.
 
 (* restarts anywhere in an admissible history; StrictlyAtOnce: the trace with the restart
@@ -23,6 +23,21 @@ Theorem c06_recovery_complete_partial : forall c, 0 < c_hdr c -> 0 < c_block c -
   rc_flag acc' = rc_flag acc /\
   forall t, chain_ents (rc_get (rc_chains acc') t) = chain_ents (rc_get (rc_chains acc) t) ++ files_ents t nfiles f disk.
 Proof. exact scan_files_complete. Qed.
+
+(* the on-disk image the engine model maintains reflects the topics' streams along EVERY
+   admissible restart-free history (invariant DIs, proofs/EngineDisk.v: well-formed blocks,
+   one image per block key, files in allocation order, per-topic entries = the topic's stream),
+   hence a restart at the end of any such history — equally a process crash between two
+   operations, which leaves the same image — rebuilds every topic's stream exactly: nothing
+   lost, nothing duplicated, nothing reordered, no foreign entry.  (Rejected operations,
+   oversize entries, multi-unit blocks, never-written blocks and file roll-overs included.)
+   Not yet covered by a theorem: the consumer's position after the restart, and histories
+   with more than one restart (C06_full). *)
+Theorem c06_restart_rebuilds_streams_partial : forall (c : Cfg) (m : mode) (be : backend) (ops : list op),
+  cfg_ok c -> Forall (op_ok c) ops ->
+  N.of_nat (length (offered_all ops)) <= u64_max -> sum_len (offered_all ops) <= u64_max ->
+  forall t, stream (get_ts (reopen c (exec (env_of c m be) init ops)) t) = stream (get_ts (exec (env_of c m be) init ops) t).
+Proof. exact restart_rebuilds_streams. Qed.
 
 (* non-vacuity and regression witnesses (all three were wrong on the pinned tree; fixed by
    6016445, a9c79b9, 0e1f235): a never-written first block in front of other topics' blocks, a
@@ -51,3 +66,8 @@ Check c06_recovery_complete_partial : forall c, 0 < c_hdr c -> 0 < c_block c -> 
   rc_flag acc' = rc_flag acc /\
   forall t, chain_ents (rc_get (rc_chains acc') t) = chain_ents (rc_get (rc_chains acc) t) ++ files_ents t nfiles f disk.
 Print Assumptions c06_recovery_complete_partial.
+Check c06_restart_rebuilds_streams_partial : forall (c : Cfg) (m : mode) (be : backend) (ops : list op),
+  cfg_ok c -> Forall (op_ok c) ops ->
+  N.of_nat (length (offered_all ops)) <= u64_max -> sum_len (offered_all ops) <= u64_max ->
+  forall t, stream (get_ts (reopen c (exec (env_of c m be) init ops)) t) = stream (get_ts (exec (env_of c m be) init ops) t).
+Print Assumptions c06_restart_rebuilds_streams_partial.
